@@ -416,7 +416,7 @@ func genSuiteName(rng *gen.RNG) string {
 		s += "-PSHA" + gen.Pick(rng, []string{"1", "256", "512"})
 	}
 	if rng.Bool() {
-		s += "-S" + gen.Pick(rng, []string{"", "064", "128", "512"})
+		s += "-S" + gen.Pick(rng, []string{"", "064", "128", "256", "512"})
 	}
 	if rng.Bool() {
 		u := gen.Pick(rng, []string{"S", "M", "H"})
